@@ -65,29 +65,54 @@ def releaseOk : Ty → String → Bool
   | .cs, r => r == "adopt"
   | _, r => r == ""
 
+/-- "returns the same value (or an object with the same field contents)": the term the wrapper hands back, per C
+    return type.  Scalars: the C result itself.  `xrlComplex {re, im}`: `std::complex<double>` whose real part is the
+    field `re` and whose imaginary part is the field `im`.  `char *`: a `std::string` of it.  `char **` + count: the
+    strings `list[0] … list[n-1]` in order, `n` being the local whose address is passed where the C prototype has its
+    `int *` count parameter.  Pointer to a C struct: an object of the class that carries the struct's name, built
+    from the C result by that class's converting constructor (whose field map `classMapOk` judges); the copy
+    constructor of `Crystal::Struct` keeps the result of `Crystal_MakeCopy` in its member `cs`. -/
+def retOk (kind : WKind) (ret : Ty) (cparams : List Ty) (e : RetE) : Bool :=
+  match ret with
+  | .double => e == .res
+  | .int => e == .res
+  | .cplx => e == .complex (.field .res "re") (.field .res "im")
+  | .cstr => e == .string .res
+  | .strlist =>
+      match e with
+      | .elems c .res (.outArg k) => c == "std::string" && cparams[k]? == some .outi
+      | _ => false
+  | .cd => e == .object "compoundData" .res
+  | .cdn => e == .object "compoundDataNIST" .res
+  | .rnd => e == .object "radioNuclideData" .res
+  | .cs => if kind == .ctor then e == .adopt .res else e == .object "Crystal::Struct" .res
+  | .void => e == .none
+  | _ => false
+
 /-- a concrete wrapper (instantiated template, free function, method, copy constructor) against its C prototype:
     own name, same arity, every wrapper parameter forwarded exactly once and in order, types agree, the error is
-    checked right after the call, the result is released properly -/
+    checked right after the call, the result is released properly, and the value handed back is the one `retOk`
+    asks for the C return type -/
 def concreteOk (protos : List CProto) (w : Wrapper) : Bool :=
   match findProto protos w.callee with
   | none => false
   | some p =>
     nameOk w && argsOk w.params w.args p.params && forwarded w.args == List.range w.params.length &&
-    (!p.hasErr || w.checked) && releaseOk p.ret w.release
+    (!p.hasErr || w.checked) && releaseOk p.ret w.release && retOk w.kind p.ret p.params w.ret
 
 /-- the two uninstantiated `_XRL_FUNCTION` overloads: `(compound.c_str(), args..., &error)` and `(args..., &error)` -/
 def patternOk (protos : List CProto) (w : Wrapper) : Bool :=
   match findProto protos w.callee with
   | none => false
   | some p =>
-    w.base == w.callee && w.checked && p.hasErr && p.ret == .double && w.release == "" &&
+    w.base == w.callee && w.checked && p.hasErr && p.ret == .double && w.release == "" && w.ret == .res &&
     ((w.params == [.str, .other] && w.args == [.cstr 0, .pack 1, .err]) ||
      (w.params == [.other] && w.args == [.pack 0, .err]))
 
 /-- free functions of `xrlpp::Crystal` that forward to the method of the same name of their first parameter -/
 def delegateOk (ws : List Wrapper) (w : Wrapper) : Bool :=
   ws.any (fun m => m.kind == .method && m.base == w.callee && w.base == m.base && w.params == .cs :: m.params) &&
-  w.args == (List.range w.params.length).map Arg.param
+  w.args == (List.range w.params.length).map Arg.param && w.ret == .res      -- `return cs.method(…);`: the method's result, unchanged
 
 def wrapperOk (protos : List CProto) (ws : List Wrapper) (dtorRelease : String) (w : Wrapper) : Bool :=
   match w.kind with
@@ -97,8 +122,8 @@ def wrapperOk (protos : List CProto) (ws : List Wrapper) (dtorRelease : String) 
   | .method => concreteOk protos w
   | .delegate => delegateOk ws w
   | .ctor =>
-      if w.callee == "" then w.release == "adopt" && dtorRelease == "Crystal_Free"          -- adopting constructor
-      else if w.callee == "xrl_malloc" then w.release == "own" && dtorRelease == "Crystal_Free"   -- public constructor
+      if w.callee == "" then w.release == "adopt" && dtorRelease == "Crystal_Free" && w.ret == .none          -- adopting constructor
+      else if w.callee == "xrl_malloc" then w.release == "own" && dtorRelease == "Crystal_Free" && w.ret == .none   -- public constructor
       else concreteOk protos w && dtorRelease == "Crystal_Free"
 
 /-- a public function belongs to the wrapped families iff it reports errors through an `xrl_error **` -/
@@ -107,5 +132,97 @@ def needsWrapper (p : CProto) : Bool := p.hasErr && !notWrappedByDesign.contains
 /-- some *callable* wrapper (not a bare template pattern) forwards to `p` -/
 def hasWrapper (ws : List Wrapper) (p : CProto) : Bool :=
   ws.any (fun w => w.callee == p.name && w.kind != .pattern && w.kind != .delegate)
+
+/-! ## Field maps: "an object with the same field contents" -/
+
+/-- the class of the header that stands for a C struct -/
+def classPod : List (String × String) :=
+  [("compoundData", "compoundData"), ("compoundDataNIST", "compoundDataNIST"), ("radioNuclideData", "radioNuclideData"),
+   ("Crystal::Atom", "Crystal_Atom"), ("Crystal::Struct", "Crystal_Struct")]
+
+/-- the field that holds the number of elements of an array field, from the comments of the C headers
+    (xraylib-parser.h:55-62, -nist-compounds.h:25-31, -radionuclides.h, xraylib-defs.h `Crystal_Struct`) -/
+def countOf : String → String → Option String
+  | "compoundData", "Elements" => some "nElements"
+  | "compoundData", "massFractions" => some "nElements"
+  | "compoundData", "nAtoms" => some "nElements"
+  | "compoundDataNIST", "Elements" => some "nElements"
+  | "compoundDataNIST", "massFractions" => some "nElements"
+  | "radioNuclideData", "XrayLines" => some "nXrays"
+  | "radioNuclideData", "XrayIntensities" => some "nXrays"
+  | "radioNuclideData", "GammaEnergies" => some "nGammas"
+  | "radioNuclideData", "GammaIntensities" => some "nGammas"
+  | "Crystal_Struct", "atom" => some "n_atom"
+  | _, _ => none
+
+/-- what the member named like the C field `f` must be initialised with: the field itself; for arrays its first
+    `count` elements in order -/
+def expectedInit (sname : String) (f : String × CFieldKind) : FInit :=
+  match f.2 with
+  | .scalar => .scalar f.1
+  | .string => .string f.1
+  | .array => match countOf sname f.1 with | some c => .range f.1 c | none => .other
+  | .atoms => match countOf sname f.1 with | some c => .atoms f.1 c | none => .other
+  | .other => .other
+
+def findStruct (cs : List CStruct) (n : String) : Option CStruct := cs.find? (fun s => s.name == n)
+
+/-- converting constructor from a C struct: every C field initialises the member of its own name with its own
+    contents; the class has no other data member (but the adopted pointer `cs` of `Crystal::Struct`), and every
+    member is initialised exactly once -/
+def podMapOk (cs : List CStruct) (members : List String) (m : ClassMap) : Bool :=
+  match findStruct cs m.src with
+  | none => false
+  | some s =>
+    s.fields.all (fun f => m.inits.lookup f.1 == some (expectedInit s.name f)) &&
+    members.all (fun x => s.fields.any (fun f => f.1 == x) || (x == "cs" && m.inits.lookup "cs" == some .adopt)) &&
+    m.inits.map (fun i => i.1) == members
+
+/-- copy constructor: every value member from the member of the same name of the source (the C object is copied by
+    `Crystal_MakeCopy` in the body: wrapper entry with `ret = adopt res`) -/
+def selfMapOk (members : List String) (m : ClassMap) : Bool :=
+  m.inits.map (fun i => i.1) == members.filter (fun x => x != "cs") &&
+  m.inits.all (fun i => i.2 == .scalar i.1)
+
+/-- public constructor of `Crystal::Struct` from values: the members from the parameters, and the C struct it builds
+    field by field from the same parameters / members — every field of `Crystal_Struct` gets the value of the member
+    of its name, the name is duplicated, the atom array is allocated for `n_atom` atoms and filled element by
+    element, field by field, from the vector that initialises the member `atom` -/
+def ownCtorOk (cs : List CStruct) (members : List String) (m : ClassMap) (o : OwnCtor) : Bool :=
+  match findStruct cs "Crystal_Struct", findStruct cs "Crystal_Atom" with
+  | some s, some a =>
+    m.inits.map (fun i => i.1) == members.filter (fun x => x != "cs") &&
+    o.assigns.head? == some ("", .allocStruct) &&
+    o.assigns.length == s.fields.length + 1 &&
+    s.fields.all (fun f =>
+      match f.2, m.inits.lookup f.1, o.assigns.lookup f.1 with
+      | .scalar, some (.param i), some (.param j) => i == j
+      | .scalar, some (.param _), some (.member x) => x == f.1
+      | .scalar, some (.sizeOf _), some (.member x) => x == f.1           -- n_atom(atoms.size()); cs->n_atom = n_atom
+      | .string, some (.param i), some (.strdupParam j) => i == j
+      | .atoms, some (.param i), some (.allocAtoms (.member c)) =>
+          countOf "Crystal_Struct" f.1 == some c && m.inits.lookup c == some (.sizeOf i) &&
+          o.loops == [(.member c, a.fields.map (fun g => { arr := f.1, fld := g.1, src := g.1, vec := .param i }))]
+      | _, _, _ => false)
+  | _, _ => false
+
+def membersOf (cm : List (String × List String)) (cls : String) : List String := (cm.lookup cls).getD []
+
+def classMapOk (cs : List CStruct) (cm : List (String × List String)) (own : List OwnCtor) (m : ClassMap) : Bool :=
+  if m.src == "" then own.any (fun o => o.sig == m.sig && ownCtorOk cs (membersOf cm m.cls) m o)
+  else if m.src == "self" then selfMapOk (membersOf cm m.cls) m
+  else classPod.contains (m.cls, m.src) && podMapOk cs (membersOf cm m.cls) m
+
+/-- `_create_atom_vector(atoms, n)`: `Atom(atoms[0]) … Atom(atoms[n-1])`, which the `atoms` initialiser relies on -/
+def atomVectorOk (hs : List Helper) : Bool :=
+  hs.any (fun h => h.name == "Crystal::_create_atom_vector" && h.ret == .elems "Crystal::Atom" (.param 0) (.param 1))
+
+/-! ## Error codes by name -/
+
+/-- the property, per enumerator *name* of `xrl_error_code`: exception class, and whether the C message is carried -/
+def specByName (n : String) : ExnKind × Bool :=
+  if n == "XRL_ERROR_MEMORY" then (.badAlloc, false)
+  else if n == "XRL_ERROR_INVALID_ARGUMENT" then (.invalidArgument, true)
+  else (.runtimeError, true)
 
 end XrlCpp.Spec
